@@ -441,6 +441,9 @@ Definition stale (st : state) : bool :=
   match rtask st with Some id => negb (live st id) | None => false end.
 Definition is_timeout (ev : event) : bool := match ev with Timeout _ _ _ _ => true | _ => false end.
 Definition is_race (ev : event) : bool := match ev with Timeout _ _ _ true => true | _ => false end.
+Definition is_connect_ev (ev : event) : bool := match ev with Connect _ _ _ => true | _ => false end.
+Definition is_loss (ev : event) : bool := match ev with Loss _ => true | _ => false end.
+Definition is_abort_ev (ev : event) : bool := match ev with Shutdown | Sigint => true | _ => false end.
 Definition is_eio_connect (e : eff) : bool := match e with FEioConnect _ _ _ _ => true | _ => false end.
 Definition is_wait (e : eff) : bool := match e with FWait _ => true | _ => false end.
 Definition is_spawn (e : eff) : bool := match e with FSpawn _ => true | _ => false end.
